@@ -35,6 +35,14 @@ def sort_keys(ctx: core.Ctx, mods):
             if isinstance(f, ast.FunctionDef):
                 for sub in ast.walk(f):
                     fn_of.setdefault(sub, f.name)
+        # a helper that wraps sorted() (`_sorted_by_name(xs)`): each of its call sites is a sorted() site judged through the helper's own sorted()
+        wrappers = {f.name for f in ast.walk(tree) if isinstance(f, ast.FunctionDef) and len([x for x in f.body if not (isinstance(x, ast.Expr) and isinstance(x.value, ast.Constant))]) <= 2
+                    and any(isinstance(c, ast.Call) and isinstance(c.func, ast.Name) and c.func.id == "sorted" for c in ast.walk(f))}
+        for c in ast.walk(tree):
+            if isinstance(c, ast.Call) and ((isinstance(c.func, ast.Name) and c.func.id in wrappers) or
+                                            (isinstance(c.func, ast.Attribute) and c.func.attr in wrappers and isinstance(c.func.value, ast.Name)
+                                             and c.func.value.id in ("self", "cls"))):
+                n += 1
         for c in ast.walk(tree):
             if isinstance(c, ast.Call) and isinstance(c.func, ast.Name) and c.func.id == "sorted":
                 n += 1
@@ -47,7 +55,19 @@ def sort_keys(ctx: core.Ctx, mods):
                                     and isinstance(a.targets[0], ast.Name) and a.targets[0].id == key.id]
                             if len(defs) == 1:
                                 key = defs[0]
+                if isinstance(key, ast.Name):
+                    # ... or a module-level name bound once (`_by_name = attrgetter("name")`), or a module-level `def key(x): return x.name`
+                    mdefs = [a.value for a in tree.body if isinstance(a, ast.Assign) and len(a.targets) == 1 and isinstance(a.targets[0], ast.Name)
+                             and a.targets[0].id == key.id]
+                    fdefs = [f for f in tree.body if isinstance(f, ast.FunctionDef) and f.name == key.id]
+                    if len(mdefs) == 1 and not fdefs:
+                        key = mdefs[0]
+                    elif len(fdefs) == 1 and not mdefs:
+                        fb = [s_ for s_ in fdefs[0].body if not (isinstance(s_, ast.Expr) and isinstance(s_.value, ast.Constant))]
+                        if len(fb) == 1 and isinstance(fb[0], ast.Return) and fb[0].value is not None and len(fdefs[0].args.args) == 1:
+                            key = ast.Lambda(args=fdefs[0].args, body=fb[0].value)
                 ok, why = True, "natural order"
+                unknown = False
                 if key is not None:
                     txt = ast.unparse(key)
                     ok = False
@@ -59,7 +79,12 @@ def sort_keys(ctx: core.Ctx, mods):
                             ok = "hash(" not in body and "id(" not in body
                     elif txt in ("str", "attrgetter('name')", "operator.attrgetter('name')", "itemgetter(0)", "operator.itemgetter(0)"):
                         ok = True
+                    if not ok and not any(b_ in txt for b_ in ("hash(", "id(", "repr(", "random", "__hash__")):
+                        unknown = True
                     why = f"key={txt}"
+                if unknown:
+                    ctx.error(f"{rel}:{fn_of.get(c, '<module>')}: the sort key `{ast.unparse(key)[:80]}` is not an enumerated form (cannot tell whether it is total and hash free)")
+                    continue
                 ctx.oblige("SORT-KEY", f"{rel}:{fn_of.get(c, '<module>')}", f"sorted(..., {why})", ok, file=rel, func=fn_of.get(c, "<module>"),
                            construct=f"sorted key {ast.unparse(key) if key is not None else 'natural'}",
                            msg=f"`{ast.unparse(c)[:100]}` sorts by `{ast.unparse(key) if key is not None else ''}`, which is not a total, hash-free key",
